@@ -63,8 +63,16 @@ def run(chk, replay=None):
         # sensitivity: the named deviations must break the laws in the model
         f_dev = {dev: ex.submit(run_tlc, "ExprOps_MC", P.pool_cfg(init="PoolGraphInit", max_ops=1, dev=dev), workers=1, timeout=600)
                  for dev in ("DevBoundIndexSubs", "DevDropUnusedIndex")}
+        # the interpreted head Z (a summand can lose an index by the value of another index): laws + sensitivity
+        zkw = dict(init="PoolZInit", maps="PoolZMaps", pairs="PoolZPairs", leafs=("x",), idxs=("i", "j"), vals=("1",), poolset="PoolsZero", max_idx=2)
+        f_z = ex.submit(run_tlc, "ExprOps_MC", P.pool_cfg(max_ops=1, full_quantification=True, **zkw), workers=3, timeout=1500)
+        f_dev["DevDropIndexUnusedAfterSubst"] = ex.submit(run_tlc, "ExprOps_MC", P.pool_cfg(max_ops=1, dev="DevDropIndexUnusedAfterSubst", full_quantification=True, **zkw), workers=1, timeout=600)
         res, cov = f_main.result(), f_cov.result()
+        resz = f_z.result()
         devres = {k: f.result() for k, f in f_dev.items()}
+    chk.add_tlc("laws_exhaustive_interpreted_head", resz)
+    if not resz.ok:
+        raise Machinery(f"the specification violates its own laws on the Z universe ({resz.violated})\n" + "\n".join(resz.error_trace[:40]))
     chk.add_tlc("laws_exhaustive", res)
     if not res.ok:
         raise Machinery(f"the specification violates its own laws ({res.violated}): specification error\n" + "\n".join(res.error_trace[:60]))
@@ -93,6 +101,10 @@ def run(chk, replay=None):
                          idxs=("i", "j", "k"), vals=("1", "3"), poolset="PoolsFull", max_idx=2, check=False)
     nbig = 400 if tier == "thorough" else 40
     behs_big = P.simulate_parallel("ExprOps_MC", sim_big, num=nbig, depth=depth, seed=chk.seed + 2, jobs=5)
+    sim_z = P.pool_cfg(init="PoolZInit", maps="PoolZMaps", pairs="PoolZPairs", ctxs="PoolCtxs", max_ops=5, max_depth=5, nest_anytime=True, leafs=("x",),
+                       idxs=("i", "j"), vals=("1",), poolset="PoolsZero", max_idx=2, check=False)
+    behs_z = P.simulate_parallel("ExprOps_MC", sim_z, num=300 if tier == "thorough" else 50, depth=depth, seed=chk.seed + 3, jobs=5)
+    behs_big = behs_big + behs_z
     for b in behs + behs_big:
         rep.replay(b)
     chk.part("simulation_replay", behaviours=len(behs) + len(behs_big), steps=rep.steps, states_checked=rep.states_checked,
